@@ -584,6 +584,51 @@ example : Feasible exVR exCS exM [(o 2, (0, 0)), (o 0, (1, 0)), (o 1, (1, 0))] :
       rcases hv with rfl | rfl <;> simp)
     (by rfl)
 
+private theorem okEq {α : Type} [DecidableEq α] (x : M α) (a : α)
+    (h : (match x with | .ok r => decide (r = a) | .error _ => false) = true) : x = .ok a := by
+  cases x with
+  | error e => simp at h
+  | ok r => simp at h; rw [h]
+
+/-- an annealing run with a swap that displaces a movable vertex (skipping the fixed one on the
+destination chip), a reverted swap and an accepted one -/
+private def saVR : VR := [(o 0, [1]), (o 1, [1]), (o 2, [1]), (o 3, [1])]
+private def saM : Machine := { w := 2, h := 1, res := [2], exc := [], dead := [] }
+
+example : Feasible saVR [loc (o 3) (1, 0)] saM [(o 0, (0, 0)), (o 1, (1, 0)), (o 2, (0, 0)), (o 3, (1, 0))] :=
+  saPlace_sound saVR [loc (o 3) (1, 0)] saM [(0, 0), (1, 0)] [o 0, o 1, o 2]
+    (some [⟨o 0, (1, 0), true⟩, ⟨o 1, (1, 0), false⟩, ⟨o 1, (1, 0), true⟩]) _ [true, true, true]
+    ⟨by decide,
+     ⟨fun v hv => by simp [saVR, keys] at hv; rcases hv with rfl | rfl | rfl | rfl <;> trivial,
+      fun c hc => by simp at hc; subst hc; trivial⟩,
+     by
+      intro v d h i; apply dem_nonneg_of_all
+      simp [saVR] at h
+      rcases h with ⟨_, rfl⟩ | ⟨_, rfl⟩ | ⟨_, rfl⟩ | ⟨_, rfl⟩ <;> intro x hx <;> simp at hx <;> omega,
+     by
+      intro c _ i; apply dem_nonneg_of_all
+      simp only [cap, saM, aget]; intro x hx; simp at hx; omega⟩
+    (by
+      intro vr' cs' subs h
+      have e : applySame saVR [loc (o 3) (1, 0)] = .ok (saVR, [loc (o 3) (1, 0)], []) := by rfl
+      rw [e] at h; injection h with h; injection h with h1 h2; injection h2 with h2 h3
+      subst h2
+      intro v c c' hc hc'
+      simp at hc hc'
+      rw [hc.2, hc'.2])
+    (by intro h; simp [saVR] at h)
+    (by
+      intro vr' cs' subs m' fixed hA hP v hv
+      have e : applySame saVR [loc (o 3) (1, 0)] = .ok (saVR, [loc (o 3) (1, 0)], []) := by rfl
+      rw [e] at hA; injection hA with hA; injection hA with h1 h2; injection h2 with h2 h3
+      subst h1; subst h2
+      have e2 : prepareLoop saVR [loc (o 3) (1, 0)] saM [] =
+          .ok ({ saM with exc := [((1, 0), [1])] }, [(o 3, (1, 0))]) := by rfl
+      rw [e2] at hP; injection hP with hP; injection hP with h4 h5; subst h5
+      simp [keys, saVR] at hv ⊢
+      rcases hv with rfl | rfl | rfl | rfl <;> simp)
+    (okEq _ _ (by decide +kernel))
+
 /-- the specification is not trivially true: the same problem with every vertex on the small chip -/
 example : ¬ Feasible exVR exCS exM [(o 2, (0, 0)), (o 0, (0, 0)), (o 1, (0, 0))] := by
   rw [← validPlacement_iff]; decide
